@@ -95,8 +95,9 @@ CHECKS['C03'] = dict(
 CHECKS['C12'] = dict(
    text='Real Shot.winds (sort on symbolic keys forks over every ordering) + real _WindSock driven exactly as _integrate drives it, with SYMBOLIC until-distances (any order, duplicates) and symbolic query positions: the vector in force equals the first sorted segment whose until-distance exceeds x, '
         'zero beyond the last; Wind.vector sign conventions and left-right mirroring on symbolic speed/direction.',
-   note='n <= 3 winds quick / 4 thorough, n+2 queries. Wind vectors are identified by concrete distinct speeds. Causality, mirror symmetry of whole trajectories and head/tail-wind effect on drop/time are decided on carriers / one integration step in the C12 carrier harnesses when present; '
-        'beyond one step the head/tail statement is at test strength (outside).',
+   note='Sock: n <= 3 winds quick / 4 thorough, n+2 queries, vectors identified by concrete distinct speeds. Carriers (C12.fire): concrete wind vectors with SYMBOLIC until-distances in any order - input-order independence (ties excluded: with equal until-distances the statement does not determine which wind acts), '
+        'segment in force at every integration step, causality (rows up to the first segment end unchanged when later segments are replaced), zero speed = no wind, left-right mirror negates windage only (twist-0 carrier), all bit-for-bit per cell; K <= 12 / 40 steps. '
+        'Head/tail-wind effect on drop and time of flight: three concrete runs per carrier (TEST strength, C12.headtail).',
    ref='3/C12')
 
 CHECKS['C01'] = dict(
